@@ -61,7 +61,8 @@ UnbornActor ==
    curp |-> NoPayload, scr |-> <<>>, ip |-> 0, cbk |-> "none", tdl |-> -1, sdl |-> -1,
    inc |-> 0, inst |-> 0, st |-> <<>>, notif |-> "armed", shared |-> FALSE,
    result |-> "none", jh |-> "none", why |-> "none", svc |-> "none",
-   kids |-> <<>>, bn |-> 0, uc |-> 0, ty |-> "0"]
+   kids |-> <<>>, bn |-> 0, uc |-> 0, ty |-> "0",
+   sq |-> [ready |-> 0, next |-> 1, ended |-> FALSE], iscr |-> <<>>, pbseen |-> FALSE]
 
 NoArg == [ty |-> "0", nh |-> "none", nh2 |-> "none"]
 IdleClient == [stage |-> "idle", n |-> 0, op |-> "none", h |-> "none", m |-> NoM, ta |-> "none", arg |-> NoArg,
@@ -174,6 +175,7 @@ Spawn(c, o) ==
                                    !.stream = cf.stream, !.tmo = cf.tmo, !.failto = cf.failto,
                                    !.sscr = cf.sscr, !.pscr = cf.pscr, !.fscr = cf.fscr,
                                    !.inst = hst.ninst + 1, !.ty = cf.ty,
+                                   !.sq = [ready |-> cf.items0, next |-> 1, ended |-> cf.ended0], !.iscr = cf.iscr,
                                    !.jh = IF cf.owning THEN "held" ELSE "none"]]
   /\ hnd' = (o.nh :> [kind |-> IF cf.owning THEN "owning" ELSE "addr", a |-> a, owner |-> c, polled |-> FALSE]) @@ hnd
   /\ cli' = Instant(c, o, Mid(c), Last("ok", 0, 0, a))
@@ -521,10 +523,17 @@ ClientYield(c, o) ==
   /\ cli' = Instant(c, o, Mid(c), Last("ok", 0, 0, "none"))
   /\ UNCHANGED <<act, hnd, rsp, tmr, reg, now, hst>>
 
+\* the harness-controlled stream becomes ready with d more items / ends (client operations)
+StreamFeed(c, o) ==
+  /\ CanIssue(c) /\ o.op \in {"feed", "end_stream"} /\ o.a \in Actor /\ act[o.a].stream
+  /\ act' = [act EXCEPT ![o.a].sq = IF o.op = "feed" THEN [@ EXCEPT !.ready = IF act[o.a].sq.ended THEN @ ELSE @ + o.d] ELSE [@ EXCEPT !.ended = TRUE]]
+  /\ cli' = Instant(c, o, Mid(c), Last("ok", 0, 0, o.a))
+  /\ UNCHANGED <<hnd, rsp, tmr, reg, now, hst>>
+
 Issue(c, o) ==
   \/ Spawn(c, o) \/ SubmitForce(c, o) \/ SubmitWait(c, o) \/ AwaitBegin(c, o) \/ Query(c, o)
   \/ Convert(c, o) \/ Upgrade(c, o) \/ DropH(c, o) \/ Give(c, o) \/ Detach(c, o) \/ JoinBegin(c, o)
-  \/ ClientSleep(c, o) \/ ClientYield(c, o) \/ RegIssue(c, o) \/ TryFromRegistry(c, o)
+  \/ ClientSleep(c, o) \/ ClientYield(c, o) \/ RegIssue(c, o) \/ TryFromRegistry(c, o) \/ StreamFeed(c, o)
 
 \* continuation steps of a pending operation
 ClientCont(c) == Flushed(c) \/ RespReturn(c) \/ AwaitReturn(c) \/ JoinReturn(c) \/ ClientWake(c) \/ RegBody(c) \/ RegPingReturn(c)
@@ -552,7 +561,7 @@ CurEff(a) == act[a].scr[act[a].ip]
 \* notify all parked, drop queued payloads), un-fired notifier, the handler future if any
 DropLoop(ar, pc, res, why) ==
   [ar EXCEPT !.pc = pc, !.rx = "closed", !.mq = <<>>, !.parked = <<>>, !.curp = NoPayload, !.scr = <<>>, !.ip = 0,
-             !.cbk = "none", !.tdl = -1, !.sdl = -1, !.result = res, !.why = why,
+             !.tdl = -1, !.sdl = -1, !.result = res, !.why = why,
              !.notif = IF @ = "armed" THEN "dropped" ELSE @, !.kids = <<>>]
 \* Context::drop aborts the timer tasks (context.rs:71-77); an aborted task still owns what its future
 \* holds (an upgraded Sender during a parked send) until it is polled again and ends
@@ -656,17 +665,39 @@ Dequeue(a) ==
   /\ UNCHANGED <<hnd, cli, rsp, tmr, reg, now, hst>>
 
 \* channel closed and empty: all senders gone (environment.rs:104 -> None)
-MailboxClosed(a) ==
-  /\ act[a].pc = "idle" /\ act[a].mq = <<>> /\ ~ChanOpen(a) /\ ~act[a].stream
-  /\ act' = [act EXCEPT ![a] = [@ EXCEPT !.pc = "stopping", !.scr = act[a].pscr, !.ip = 1, !.cbk = "closed"]]
-  /\ hst' = HCb(hst, a, "pb", act[a])
+\* leaving the receive loop: plain actors go to stopped(), stream-attached ones first to finished()
+Leave(a, why) ==
+  /\ act' = [act EXCEPT ![a] = IF act[a].stream
+                                THEN [@ EXCEPT !.pc = "finishing", !.curp = NoPayload, !.scr = act[a].fscr, !.ip = 1, !.cbk = why]
+                                ELSE [@ EXCEPT !.pc = "stopping", !.curp = NoPayload, !.scr = act[a].pscr, !.ip = 1, !.cbk = why]]
+  /\ hst' = HCb(hst, a, IF act[a].stream THEN "fb" ELSE "pb", act[a])
   /\ UNCHANGED <<hnd, cli, rsp, tmr, reg, now>>
 
+MailboxClosed(a) ==
+  /\ act[a].pc = "idle" /\ act[a].mq = <<>> /\ ~ChanOpen(a)
+  /\ Leave(a, "closed")
+
 StopTaken(a) ==
-  /\ act[a].pc = "dequeued" /\ act[a].curp.k = "stop" /\ ~act[a].stream
-  /\ act' = [act EXCEPT ![a] = [@ EXCEPT !.pc = "stopping", !.curp = NoPayload, !.scr = act[a].pscr, !.ip = 1, !.cbk = "stop"]]
-  /\ hst' = HCb(hst, a, "pb", act[a])
+  /\ act[a].pc = "dequeued" /\ act[a].curp.k = "stop"
+  /\ Leave(a, "stop")
+
+\* ---- stream-attached actors (environment.rs:140-186): select! between mailbox and stream
+StreamMid(a, k) == <<"s." \o a, k>>
+StreamItem(a) ==
+  /\ act[a].pc = "idle" /\ act[a].stream /\ act[a].sq.ready > 0
+  /\ act' = [act EXCEPT ![a] = [@ EXCEPT !.pc = "dequeued", !.sq = [@ EXCEPT !.ready = @ - 1, !.next = @ + 1],
+                                          !.curp = [k |-> "task", m |-> StreamMid(a, act[a].sq.next), rs |-> "none", scr |-> act[a].iscr, src |-> "stream"]]]
+  /\ UNCHANGED <<hnd, cli, rsp, tmr, reg, now, hst>>
+StreamDone(a) ==
+  /\ act[a].pc = "idle" /\ act[a].stream /\ act[a].sq.ready = 0 /\ act[a].sq.ended
+  /\ Leave(a, "stream")
+FinishedEnd(a) ==
+  /\ act[a].pc = "finishing" /\ ScriptDone(a) /\ act[a].sdl < 0
+  /\ act' = [act EXCEPT ![a] = [@ EXCEPT !.pc = "stopping", !.scr = act[a].pscr, !.ip = 1]]
+  /\ hst' = HCb(HCb(hst, a, "fe", act[a]), a, "pb", act[a])
   /\ UNCHANGED <<hnd, cli, rsp, tmr, reg, now>>
+
+
 
 \* ping payload: answered by the loop itself (addr.rs:133-137)
 PingHandled(a) ==
@@ -766,11 +797,12 @@ LoopStep(a) ==
   \/ StartedBegin(a) \/ ScriptStep(a) \/ StartedEnd(a) \/ Dequeue(a) \/ MailboxClosed(a) \/ StopTaken(a)
   \/ PingHandled(a) \/ HandleBegin(a) \/ HandleEnd(a) \/ TimeoutFire(a) \/ RestartTaken(a)
   \/ RestartStopped(a) \/ RestartRefresh(a) \/ RestartStarted(a) \/ StoppedEnd(a) \/ Notify(a) \/ Exit(a)
+  \/ StreamItem(a) \/ StreamDone(a) \/ FinishedEnd(a)
 
 LoopCanStep(a) ==
   CASE act[a].pc = "starting" -> TRUE
     [] InScript(a) -> (IF ScriptDone(a) THEN act[a].sdl < 0 ELSE EffEnabled(a)) \/ TimeoutReady(a)
-    [] act[a].pc = "idle" -> act[a].mq # <<>> \/ (~ChanOpen(a) /\ ~act[a].stream)
+    [] act[a].pc = "idle" -> act[a].mq # <<>> \/ ~ChanOpen(a) \/ (act[a].stream /\ (act[a].sq.ready > 0 \/ act[a].sq.ended))
     [] act[a].pc \in {"dequeued", "stopped", "notified", "rs_mid"} -> TRUE
     [] OTHER -> FALSE
 
